@@ -227,13 +227,17 @@ def assemble(idx, c, tr, dv, dump):
              "raw": [fdent(drv["fds"], RAWFD[i]) if c["io"][i] == "raw" else {"link": "", "acc": -1} for i in range(3)],
              "pipes": pipes, "pgrp": drv["pgrp"]}
     out = [{"ev": "reset", "run": idx, "cfg": c, "facts": facts}]
+    returned = False
     for e in tr:
         k = e["ev"]
+        if k == "sys" and e["task"] == 1 and returned and e["nr"] != "wait4":
+            continue   # the driver's own calls after spawn returned (only Child::wait is tiny-std's)
         if k == "mark":
             t = e["text"].split(":")
             if t[0] == "returned":
                 code = 0 if t[1] == "ok" else (NOCODE if t[2] == "none" else int(t[2]))
                 out.append({"ev": "mark", "task": e["task"], "kind": "returned", "res": t[1], "code": code, "execd": e["execd"]})
+                returned = returned or e["task"] == 1
             elif t[0] == "pre":
                 out.append({"ev": "mark", "task": e["task"], "kind": "pre", "idx": int(t[1]), "execd": e["execd"]})
         elif k == "sys":
@@ -269,9 +273,14 @@ def assemble(idx, c, tr, dv, dump):
 # ------------------------------------------------------------------------------------------------
 def observed_hist(run, plan):
     h = {1: [], 2: []}
+    returned = False
     for e in run["tracer"]:
         t = e.get("task")
         if t not in h:
+            continue
+        if e["ev"] == "mark" and t == 1 and e["text"].startswith("returned"):
+            returned = True
+        if e["ev"] == "sys" and t == 1 and returned and e["nr"] != "wait4":
             continue
         if e["ev"] == "sys" and e["nr"] != "close":
             if e["ret"] < 0:
@@ -337,15 +346,9 @@ def judge(chk, runs, tag):
 
 
 def signature(plan, variant, clause, verdict):
-    f = plan["fault"]
-    nat = natural_failure(plan["cfg"])
-    if f["k"] and plan.get("fired", True):
-        side, step = ("caller" if f["p"] == "P" else "child"), f["sys"]
-    elif nat:
-        side, step = "child", nat[0]
-    else:
-        side, step = "none", "none"
-    sig = {"clause": clause, "side": side, "step": step, "start": VARIANTS[variant][1]}
+    """identity of a violation: the clause, the steps that failed in that run (side/step), the build"""
+    steps = sorted({"%s/%s" % ("caller" if f["proc"] == "P" else "child", f["step"]) for f in verdict.get("failed", [])})
+    sig = {"clause": clause, "failed": "+".join(steps) if steps else "none", "start": VARIANTS[variant][1]}
     if clause == "OkMeansConfigured":
         sig["mismatch"] = "+".join(sorted(verdict.get("mismatch", [])))
     return sig
